@@ -7,6 +7,8 @@ use std::panic::{catch_unwind, AssertUnwindSafe};
 
 mod alloccount;
 mod dynval;
+// `--features fresh`: the interfaces of a thorough run's fresh declaration sets (src/gen_fresh.rs) instead of src/gen.rs
+#[cfg_attr(feature = "fresh", path = "gen_fresh.rs")]
 mod gen;
 mod ops;
 mod support;
